@@ -56,6 +56,20 @@ theorem real_arithmetic_inverse_eq_conj_forward_conj (inverse : Bool) (t : Recip
     real_arithmetic_tree_is_dft N hN h4 inverse t hg _ (tab_size _ _), cosCtx_not]
   exact semDft_cinv _ _ (realCtx_lawful N hN h4 inverse) _ x
 
+/-- no scaling in the real code: a well-formed tree of length 1 is the identity in exact real arithmetic -/
+theorem real_arithmetic_len1_identity (inverse : Bool) (t : Recipe) (hg : t.Good (fun n => 0 < n ∧ n ∣ N))
+    (h1 : t.len = 1) (x : Array (Cx ℝ)) (hx : x.size = 1) :
+    t.semP (realCos N hN h4) inverse (fun m => 1 / (m : ℝ)) x = x := by
+  have hc := realCtx_lawful N hN h4 inverse
+  rw [real_arithmetic_tree_is_dft N hN h4 inverse t hg x (by rw [hx, h1]), h1, semDft_eq_tab]
+  conv_rhs => rw [← tab_at' x, hx]
+  refine tab_congr 1 _ _ (fun k hk => ?_)
+  have hk0 : k = 0 := by omega
+  subst hk0
+  have ht := hc.tw_zero 1 ⟨Nat.one_pos, one_dvd N⟩
+  simp only [one_div] at ht ⊢
+  simp [dftF, ht]
+
 end
 
 /-- non-vacuity: forward by a 4×3 mixed-radix tree, inverse by a 3×4 one, on the grid 12 -/
